@@ -4,7 +4,7 @@ Tie: the C01 and C02 correspondence checks on roots built from explicit index ex
 the zero-based twin program (indices shifted) designates the same elements."""
 import re
 
-from . import core, progcheck, viewprog, c02, c05
+from . import core, progcheck, c07, viewprog, c02, c05
 
 PID = "C19"
 
@@ -69,6 +69,42 @@ ASSIGN = progcheck.Family(PID, "assign", "assign-run", "h_assign", ["h_assign.cp
                           body_prefixes=("dop ", "sop "), record=lambda b, f, m, i: {"rebased_diagonal": False})
 
 
+COMPARE = c07.Fam(PID, "compare", "compare-run", "h_compare", ["h_compare.cpp"], body_prefixes=("xop ",),
+                  record=lambda b, f, m, i: {"rebased_diagonal": False})
+COMPARE.monitor = lambda impl, obs: c07.monitor(getattr(COMPARE, "raw", impl), obs)
+
+
+def compare_twin(prog):
+    """the zero-based twin of a comparison program: the trailing re-indexing of every operand made neutral (reindexed 0);
+    returns (twin program, ids of the cases whose three operands carry the same index bases)"""
+    same, out = set(), []
+    for cid, block in core.split_cases(prog):
+        bases = {}
+        for line in block.splitlines():
+            p = line.split()
+            if len(p) == 4 and p[0] == "xop" and p[2] == "reindexed":
+                bases.setdefault(p[1], []).append(p[3])
+        if len({tuple(bases.get(n, [])) for n in "abc"}) == 1:
+            same.add(cid)
+        out.append(re.sub(r"^(xop \w reindexed) -?\d+$", r"\1 0", block, flags=re.M).replace("case " + cid, "case t" + cid, 1))
+    return "".join(out), same
+
+
+def compare_twin_monitor(impl, twin_impl, same):
+    """library vs library: comparisons of re-based operands with equal bases answer like their zero-based twins"""
+    t = {}
+    for line in twin_impl.splitlines():
+        p = line.split(" ", 3)
+        if p[0] == "C":
+            t[(p[1][1:], p[2])] = p[3]
+    bad = []
+    for line in impl.splitlines():
+        p = line.split(" ", 3)
+        if p[0] == "C" and p[1] in same and t.get((p[1], p[2])) not in (None, p[3]):
+            bad.append((p[1], "rebased-comparison-differs-from-zero-based-twin", "%s | twin: %s" % (line, t[(p[1], p[2])])))
+    return bad
+
+
 def run(tier, seed, replay=None):
     res = core.Result(PID, tier, seed, level="proof")
     if not replay:
@@ -88,9 +124,16 @@ def run(tier, seed, replay=None):
         path = core.write_replay(PID, "", {"property": PID, "found-by": "build:harness-h_assign", "log": log_a[-3000:]})
         res.violation(path, "h_assign does not compile", no_input=True)
         return res.finish()
+    has_ge, has_rank0 = c07.configure(COMPARE)
+    ok_c, log_c = COMPARE.build()
+    if not ok_c:
+        path = core.write_replay(PID, "", {"property": PID, "found-by": "build:harness-h_compare", "log": log_c[-3000:]})
+        res.violation(path, "h_compare does not compile", no_input=True)
+        return res.finish()
     if replay:
         text = open(replay).read()
-        fam = ITERS if re.search(r"^it ", text, re.M) else (ASSIGN if re.search(r"^droot ", text, re.M) else VIEWS)
+        fam = ITERS if re.search(r"^it ", text, re.M) else (ASSIGN if re.search(r"^droot ", text, re.M) else
+                                                            (COMPARE if re.search(r"^xroot ", text, re.M) else VIEWS))
         if fam is ASSIGN:
             c05.index_prog("".join(l for l in text.splitlines(True) if not l.startswith("#")))
         fam.replay(res, replay)
@@ -149,8 +192,49 @@ def run(tier, seed, replay=None):
     c05.index_prog(prog_a)
     n_fail += ASSIGN.classify(res, prog_a, obs_a, impl_a, crashes_a)
     ASSIGN.case_fails = _orig
+    # ---- equality and ordering of re-based operands (+ zero-based twin, library vs library) ----
+    nc = 1500 if tier == "quick" else 30000
+    prog_q, obs_q, dist_q = COMPARE.generate(seed + 3, nc, prefix="rc", extra=["--rebased"] + (["--has-ge"] if has_ge else []))
+    obs_q = c07.normalise(obs_q, c07.empties(obs_q))
+    twin_q, same_q = compare_twin(prog_q)
+
+    def eq_only(text):
+        """operands with DIFFERENT index bases: neither C07 nor C19 says how they are ordered (the library orders them by
+        their first indices, dimension by dimension); only == / != are compared for them, and they are != by extension"""
+        out = []
+        for line in text.splitlines():
+            m = c07.C_RE.match(line)
+            if m and m.group(1) not in same_q and m.group(4) != "*":
+                cid, p, q, v, a, mx = m.groups()
+                line = "C %s %s%s view=%s**** array=%s*** mixed=%s" % (cid, p, q, v[:2], a[:2], mx)
+            out.append(line)
+        return "\n".join(out) + "\n"
+    obs_q = eq_only(obs_q)
+    _impl_run = COMPARE.impl_run
+
+    def _impl_eq_only(prog_text, shards=None):
+        out, crashes = _impl_run(prog_text, shards)
+        # the model-independent monitor sees only the same-base cases
+        COMPARE.raw = "".join(l + "\n" for l in COMPARE.raw.splitlines() if len(l.split()) < 2 or l.split()[1] in same_q or l.split()[1].startswith("t"))
+        return eq_only(out), crashes
+    COMPARE.impl_run = _impl_eq_only
+    _model_run = COMPARE.model_run
+    COMPARE.model_run = lambda prog_text: eq_only(_model_run(prog_text))
+    impl_q, crashes_q = COMPARE.impl_run(prog_q)
+    raw_q = COMPARE.raw
+    n_fail += COMPARE.classify(res, prog_q, obs_q, impl_q, crashes_q)
+    COMPARE.impl_run = _impl_run
+    COMPARE.model_run = _model_run
+    twin_impl_q, _tc = COMPARE.impl_run(twin_q)
+    emp = c07.empties(raw_q)
+    bad_q = [b for b in compare_twin_monitor(impl_q, twin_impl_q, same_q) if b[0] not in emp]
+    blocks_q = dict(core.split_cases(prog_q))
+    for cid, what, line in bad_q[:3]:
+        path = core.write_replay(PID, blocks_q[cid], {"property": PID, "found-by": "monitor:" + what, "implementation-said": line})
+        res.violation(path, what + ": " + line)
+    n_fail += len(bad_q)
     VIEWS.proof_verdict(res, coq, n_fail)
-    allprog = prog_c + prog_v + prog_i + prog_a
+    allprog = prog_c + prog_v + prog_i + prog_a + prog_q
     res.coverage.update({
         "evaluations": len(core.split_cases(allprog)) + len(core.split_cases(twin_prog)),
         "distinct_nontrivial": progcheck.distinct_nontrivial(allprog, min_lines=3),
@@ -160,8 +244,9 @@ def run(tier, seed, replay=None):
                 "the library; diagonal() is generated only where the first two index bases are 0 (known finding otherwise, "
                 "exercised by corpus/C19/kf-*.prog); non-trivial = at least 2 operations or walk steps; distinct by hash",
         "samples": progcheck.samples(prog_v, n=1, min_lines=6) + progcheck.samples(prog_i, n=1, min_lines=6),
-        "generator_distribution": {"views": dist_v, "iters": dist_i, "assign": dist_a},
-        "observation_lines_compared": obs_v.count("\n") + obs_i.count("\n") + obs_a.count("\n"),
+        "generator_distribution": {"views": dist_v, "iters": dist_i, "assign": dist_a, "compare": dist_q},
+        "compare_twin_cases": len(same_q),
+        "observation_lines_compared": obs_v.count("\n") + obs_i.count("\n") + obs_a.count("\n") + obs_q.count("\n"),
         "twin_lines_compared": twin_impl.count("\n"),
         "corpus_cases": len(core.split_cases(prog_c)),
         "disagreeing_cases": n_fail,
